@@ -2,6 +2,10 @@
    traversal repair:
 
      Scan(tree):      for stmt in tree.Statements { scanNode(stmt) }; updateCounts(result)
+                      — the ROOTS of the scan are the statements of the AST, whatever their type: [root k] says that
+                      Scan starts a traversal from a top-level statement of kind k (Gen/QRoots.v, regenerated every run
+                      from the code by probing Scan with one statement of each kind of the reference grammar; a
+                      type switch or allow-list in this loop makes some [root k] false).
      scanNode(root):  ast.Inspect(root, f) with a seen-set of *SelectStatement ([KShared] leaves) and
                       f = per node kind: BinaryExpression -> scanBinaryExpression (isTautology, checkOrInjection)
                                          FunctionCall     -> scanFunctionCall (time-based / dangerous names)
@@ -107,8 +111,10 @@ Definition update_counts (l : list finding) : counts :=
 
 Section Scan.
   Variable em : kind -> slot -> bool.
+  Variable root : kind -> bool.
+  Definition scan_roots (stmts : list qn) : list qn := filter (fun s => root (q_kind s)) stmts.
   Definition scan_findings (m : minsev) (stmts : list qn) : list finding :=
-    flat_map (fun s => flat_map (local_findings m) (qwalk em s)) stmts.
+    flat_map (fun s => flat_map (local_findings m) (qwalk em s)) (scan_roots stmts).
   Definition scan (m : minsev) (stmts : list qn) : list finding * counts :=
     let fs := scan_findings m stmts in (fs, update_counts fs).
 End Scan.
@@ -122,7 +128,7 @@ Definition same_multiset (a b : list N) : bool :=
   Nat.eqb (List.length a) (List.length b) && forallb (fun c => Nat.eqb (count_code c a) (count_code c b)) a.
 Definition all_min : list minsev := [Some Low; Some Medium; Some High; Some Critical].
 (* one case: the tree and, per threshold, the implementation's finding codes *)
-Definition scan_case_ok (em : kind -> slot -> bool) (c : list qn * list (list N)) : bool :=
+Definition scan_case_ok (em : kind -> slot -> bool) (root : kind -> bool) (c : list qn * list (list N)) : bool :=
   Nat.eqb (List.length (snd c)) 4 &&
-  forallb (fun mw : minsev * list N => same_multiset (map fcode (scan_findings em (fst mw) (fst c))) (snd mw))
+  forallb (fun mw : minsev * list N => same_multiset (map fcode (scan_findings em root (fst mw) (fst c))) (snd mw))
           (combine all_min (snd c)).
